@@ -173,10 +173,20 @@ _PM = None
 _CAPS = None
 
 
+_PM_PRISTINE = None
+
+
 def peer_manager():
-    global _PM
+    """The shared real PeerManager, put back into the state it was constructed in: nothing it may remember
+    about an earlier population (a cache the harness does not know of) reaches the next case."""
+    global _PM, _PM_PRISTINE
+    import copy
     if _PM is None:
         _PM = peers_env.make_peer_manager()
+        _PM_PRISTINE = dict(_PM.__dict__)
+    d = _PM.__dict__
+    d.clear()
+    d.update({k: (copy.copy(v) if isinstance(v, (dict, list, set)) else v) for k, v in _PM_PRISTINE.items()})
     return _PM
 
 
@@ -231,7 +241,9 @@ class SubRun:
     def __init__(self, case):
         self.case = case
         specs = case['specs']
-        pm = peer_manager()
+        # (a manager of its own for the cases with a history: whatever it remembers from the first call
+        # must not leak into other cases - and must not survive the changes made before the second)
+        pm = peers_env.make_peer_manager() if case.get('reverified') else peer_manager()
         self.objs = [peers_env.make_peer(s['host'], s['ip'], s['lg'], s['bad'], marker=i)
                      for i, s in enumerate(specs)]
         self.idx = {id(o): i for i, o in enumerate(self.objs)}
@@ -241,15 +253,22 @@ class SubRun:
             # the peers were first seen (and listed once) at another address, then re-verified at the
             # address of the case (`_verify_peer` overwrites `ip_addr`): nothing derived from the old
             # address may survive in the objects
+            # ... and at that time every one of them was good and fresh: the ones the case calls bad have
+            # failed a later verification (`mark_bad()`), the stale ones were last good long ago
             for n, (o, s) in enumerate(zip(self.objs, specs)):
                 if s['ip']:
                     o.ip_addr = f'{(37 + n) % 200 + 11}.{(n * 7) % 250 + 1}.9.9'
+                o.bad = False
+                o.last_good = case['now'] - 1
             try:
                 peers_env.call_on_peers_subscribe(pm, case['is_tor'], case['now'], chooser_for('id'))
             except Exception:
                 pass
             for o, s in zip(self.objs, specs):
                 o.ip_addr = s['ip']
+                o.last_good = s['lg']
+                if s['bad']:
+                    o.mark_bad()
         self.order = [self.idx[id(o)] for o in pm.peers]          # set iteration order
         self.myselves = [self.idx[id(o)] for o in pm.myselves]
         self.error = None
